@@ -11,10 +11,11 @@ THEOREMS = [_T + n for n in (
     'C08_T81_inner', 'C08_T81_left', 'C08_witness_semi_right', 'C08_witness_semi_full',
     'C08_regression_semi_kinds', 'C08_regression_semi_right', 'C08_regression_semi_full',
     'C08_T82_inner_right', 'C08_T82_inner_left', 'C08_T82_left_left', 'C08_T82_left_right',
-    'C08_T82_collected', 'C08_T82_pushed', 'C08_regression_not_pushes_nothing', 'C08_regression_not', 'C08_witness_isnull',
+    'C08_T82_collected', 'C08_T82_pushed', 'C08_regression_not_pushes_nothing', 'C08_regression_not', 'C08_T82_pushedK', 'C08_regression_isnull_not_pushed', 'C08_regression_isnull',
+    'C08_witness_isnull',
     'C08_T83_limit_left', 'C08_useLimit_two_tables', 'C08_useLimit_group_by', 'C08_useLimit_third',
     'C08_witness_limit_inner', 'C08_plan_limit_inner', 'C08_witness_limit_group',
-    'C08_partial', 'C08_partial_left', 'C08_partial_limit', 'C08_partial_model', 'C08_partial_model_inner', 'C08_partial_model_left_limit',
+    'C08_partial', 'C08_partial_left', 'C08_partial_limit', 'C08_partial_model', 'C08_partial_model_nolimit', 'C08_partial_model_inner', 'C08_partial_model_left_limit',
     'C08_witness_limit_where', 'C08_T83_limit_left_left', 'C08_T81_third_table', 'C08_union_all_compositional', 'C08_union_distinct_compositional',
     'C08_cte_compositional', 'C08_not_full')]
 ASSUME = [
@@ -30,7 +31,7 @@ ASSUME = [
     'two-table fragment (3-way joins, IN/NOT IN subqueries, UNION, CTE, nested selects, GROUP BY, api integrations) are '
     'covered by the probe only',
     'C08_partial_model (execPlan (plan q) db = evalQuery q db) covers every two-table query (all join kinds, any WHERE '
-    'tree, LIMIT) satisfying the decidable side condition Sem.planSound; the driver reports planSound per case and the '
+    'tree, LIMIT) satisfying the decidable side condition Sem.planSound (= limitSound: every query without LIMIT satisfies it); the driver reports planSound per case and the '
     'run checks that the REAL plan is right on every such case',
 ]
 
@@ -497,7 +498,7 @@ def run(chk):
     chk.samples.append(dict(theorem='C08_partial: (innerJoin on (L.filter pL) ((R.filter pR).filter (semi cR (distinct '
                                     '((L.filter pL).map cL))))).filter w = (innerJoin on L R).filter w  given ON => NULL-aware key '
                                     'equality and w => pL, w => pR'))
-    chk.samples.append(dict(theorem='C08_partial_model: planSound q = true -> execPlan (plan q) db = evalQuery q db   (planSound = nullSafe && limitSound, all join kinds, any WHERE tree, LIMIT)'))
+    chk.samples.append(dict(theorem='C08_partial_model: planSound q = true -> execPlan (plan q) db = evalQuery q db   (planSound = limitSound: every query without LIMIT, all join kinds, any WHERE tree; LIMIT below LEFT joins)'))
     chk.samples.append(dict(theorem='C08_witness_limit_inner: execPlan (plan limQ) limDB != evalQuery limQ limDB  (inner join LIMIT 1)'))
     return chk.finish(assumptions=ASSUME, extra=dict(notes=chk.notes[:20]))
 
